@@ -158,7 +158,9 @@ EXPORT errno_t _wcrtomb_s_chk(size_t *restrict retvalp, char *restrict dest,
             memcpy(dest, tmpbuf, len);
         }
     } else {
-        len = *retvalp = wcrtomb(dest, wc, ps);
+        /* size query: like wcrtomb(buf, L'\0', ps) with an internal buffer */
+        *retvalp = wcrtomb(NULL, wc, ps);
+        return RCNEGATE(EOK);
     }
 
     if (likely(len < dmax)) {
